@@ -490,3 +490,64 @@ PROPS["C05"]["explanation"] += (" rs_decode_panics_only_algebraic (DM/Props/C05.
 PROPS["C05"]["level_text"] = ("Partial proof: the data decoder, the string decoder and the bitmap parser are total for all inputs; the Reed-Solomon decoder reaches none of its index / slice / subtraction / division / assert! panic sites"
     " for any word of the right length (theorems about the models, all inputs) - in release builds it therefore cannot panic; that its two debug re-checks of the Levinson-Durbin identities never fire is decided by model correspondence (checked profile) on crafted-syndrome and random words.")
 PROPS["C05"]["unproved"] = ["ld_identities: the debug assertions re-checking equations (3) and (4) of the Levinson-Durbin recursion never fire (the algebraic correctness of the recursion incl. its singular case)"]
+
+# ======== Reed-Solomon decoder: totality, soundness, completeness are theorems (RSTotal, LD*, RSSound*, BP*, C03*) ========
+PROPS["C05"]["level"] = "proof"
+PROPS["C05"]["unproved"] = []
+PROPS["C05"]["explanation"] += (" rs_decode_total (DM/Props/C05.lean; DM/Lemmas/LDBase, LDCore, LDRegular, LDSingular, LDStep, LDTotal): equations (3) H_v y = e_{v-1} and (4) H_v w = h_v are invariants of the"
+    " Levinson-Durbin recursion of the model - initial back substitution, regular step, and the singular step with its iterated shifts w^k, the lower-triangular Toeplitz system for gamma and the shifted sums of eq. (9),"
+    " all over the field GF(256) derived from the regenerated tables - so the two debug assertions cannot fire: for every size and every word of the size's length the Reed-Solomon decoder model returns the corrected vector"
+    " or one of TooManyErrors / ErrorsOutsideRange / Malfunction, and never any panic outcome.")
+PROPS["C05"]["level_text"] = ("Proof: every decoding entry point is total on the models, for all inputs - decode_data_total, decode_str_total (with eci_spans_in_range), try_from_bits_total (with C08: every pixel array gets an answer),"
+    " rs_decode_total (no index / slice / subtraction / division / assert! panic site is reachable and the debug re-checks of the Levinson-Durbin identities hold, in the regular and the singular case; loops bounded by construction);"
+    " DataMatrix::decode is the composition. Every Rust panic site (overflow checks and debug assertions included) is an explicit outcome of the models, which are tied to the code by correspondence on exhaustive-short,"
+    " grammar-aware mutated, crafted-syndrome, long-singular-jump and random inputs under catch_unwind in the checked profile (release profile in the thorough tier).")
+PROPS["C05"]["level_note"] = ("Trusted: Lean kernel, standard axioms, the correspondence harness (catch_unwind; checked profile = overflow checks + debug assertions on); the models' transcription of every panic site"
+    " (Appendix A of DESIGN.md) is what the correspondence checks. Hangs: the models' loops are structurally bounded (fuel that the theorems show is never exhausted); wall-clock behaviour of the code is observed, not proved.")
+PROPS["C05"]["technique"] = "Lean 4 theorems over hand-written models with every panic site explicit (weakest-precondition calculus over the do-notation Reed-Solomon decoder, Levinson-Durbin algebra over GF(256)) + model/implementation correspondence"
+
+PROPS["C09"]["lean"] = ["DM.Props.C09", "DM.Props.C09Sound"]
+PROPS["C09"]["level"] = "proof"
+PROPS["C09"]["unproved"] = []
+PROPS["C09"]["explanation"] += (" decode_sound / decode_sound_reencode (DM/Props/C09Sound.lean; DM/Lemmas/RSSoundBase, RSSoundLD, RSSoundBlock, BPDefs, BPAlg, BPBridge, RSSoundLift): for every size and every word of the size's length,"
+    " if the decoder model answers Ok, every interleaved block of its answer has zero syndromes, i.e. re-encoding the data part reproduces the error-correction part (the property's own wording, via valid_iff_reencode)."
+    " Proof: after the locator search, the Chien search and the malfunction test the order-v recurrence with the returned locator holds on every window of the syndromes (recurrence_all_windows); the Chien roots are roots of the"
+    " locator, so the power sums of the inverse roots obey the same recurrence; Bjorck-Pereyra solves the Vandermonde system exactly (bjorckPereyra_correct: Newton basis / divided differences, proved over any field and bridged to the list model);"
+    " two sequences with the same monic order-v recurrence and the same first v terms agree (recurrence_extend); syndromes are linear in the corrections (synd_update); lifting from blocks to the interleaved word (scatter / strided).")
+PROPS["C09"]["level_text"] = ("Proof: decode_sound - whenever the Reed-Solomon decoder model returns success for a word of any symbol size, the word it leaves behind is a valid codeword of every interleaved block (all inputs; kernel-checked);"
+    " the model is tied to the code by correspondence on words within and beyond the radius, crafted syndromes (leading zeros, singular Hankel minors, one violated recurrence window, locations outside the block) and random words, and the"
+    " independent table-free syndrome oracle is still evaluated on every Ok of the implementation.")
+PROPS["C09"]["level_note"] = "Trusted: Lean kernel, standard axioms, Spec/GF256.lean + Spec/Table7.lean as the definition of the code, the correspondence harness for model = decode_error."
+PROPS["C09"]["technique"] = "Lean 4 theorem over the decoder model (recurrence on all windows + Bjorck-Pereyra correctness + linearity of syndromes) + model/implementation correspondence + independent syndrome oracle on every Ok"
+
+PROPS["C03"]["lean"] = ["DM.Props.C03", "DM.Props.C03Full", "DM.Props.C03Complete", "DM.Props.C03Single"]
+PROPS["C03"]["level"] = "proof"
+PROPS["C03"]["unproved"] = ["the last clause of the property, 'decoding the correspondingly damaged module matrix returns the original message', is the composition with C07/C08/C01 (pipeline_roundtrip) and the data-level round trip, which is proved only for the plans named under C01"]
+PROPS["C03"]["explanation"] += (" decode_complete_unconditional (DM/Props/C03Full.lean; DM/Lemmas/RSLocator, LDReach, LDFlow, LDFlow2, BlockComplete, ChienSpec, BPShape, BPPure, BPCorrect, BPOne, CorrectParts, ErrPattern, BlocksAssemble, RSTot):"
+    " for every size, every valid codeword vector and every received word that differs from it in at most floor(k/2) codewords of each interleaved block - any positions, data or error-correction part, any values - the decoder model"
+    " answers Ok and returns exactly the original vector. Proof: the syndrome Hankel matrix of nu errors is non-singular at size nu and singular beyond (hankel_det_ne_zero / _eq_zero), the error locator is the unique monic order-nu"
+    " recurrence (rec_true, rec_unique); the Levinson-Durbin recursion, whose invariants (3), (4) are theorems, reaches exactly v = nu - a singular jump never overshoots (step_below) - and stops there (loop_at_nu); the Chien search finds"
+    " exactly the nu inverse locators, also through the degree-one shortcut (chien_finds_locators); the malfunction test passes; Bjorck-Pereyra returns the error values; the corrections land on the right codewords of the right block"
+    " (144x144's unequal blocks included) and restore the word. decode_single_wrong_codeword: any single wrong codeword of any size is repaired.")
+PROPS["C03"]["level_text"] = ("Proof: decode_complete_unconditional - all 48 sizes, all valid vectors, all error patterns of weight <= floor(k/2) per block are repaired exactly by the decoder model (kernel-checked, no hypotheses beyond the"
+    " statement's); the model is tied to the code by correspondence on enumerated and sampled patterns in every region of every block, exactly-t patterns, bursts, patterns with long singular jumps.")
+PROPS["C03"]["level_note"] = "Trusted: Lean kernel, standard axioms, Spec/GF256.lean + Spec/Table7.lean as the definition of the code, the correspondence harness for model = decode_error; encode_error (C06-proved) provides valid vectors."
+PROPS["C03"]["technique"] = "Lean 4 theorem over the decoder model (Hankel / locator algebra, Levinson-Durbin reaches the error count, Chien, Bjorck-Pereyra, block assembly) + model/implementation correspondence on enumerated error patterns"
+
+PROPS["C17"]["lean"] = ["DM.Props.C17", "DM.Props.C17b"]
+PROPS["C17"]["level"] = "proof"
+PROPS["C17"]["unproved"] = []
+PROPS["C17"]["explanation"] += (" path_model_ok / path_model_fill (DM/Props/C17b.lean; DM/Lemmas/PathMicro, PathGraph, PathGraphImp, PathWalk, PathCompress): for every bitmap with a dark top-left module (dimensions within i16) the model of"
+    " Bitmap::path() returns a path - the walk never meets the `expect` and never runs out of fuel - that the certified checker accepts, hence (checker_sound) is well formed and fills exactly the dark modules. Proof: the outline graph has"
+    " exactly the boundary edges (bitsToEdgeGraph_spec; the closed form equals the transcribed loops, bitsToEdgeGraphImp_eq) and every grid node has even degree (even_degree); a walk from a node of a graph with all degrees even comes back"
+    " to its start and removes one edge per step (walk_spec); splicing a closed walk at an alternative keeps a sequence of closed walks (euler_spec); when edge_left finds nothing every edge has been drawn exactly once (tours_spec);"
+    " compress_path preserves the drawn unit edges, yields non-zero axis-parallel segments and closes every sub-path (compress_spec). The counterexample without a dark top-left module is an example in the file.")
+PROPS["C17"]["level_text"] = ("Proof: path_model_fill - for every bitmap with a dark top-left module the path returned by the model of Bitmap::path() is well formed and its even-odd fill is exactly the bitmap (all bitmaps, kernel-checked);"
+    " pixels_exact for the pixel iterator. The model is tied to the code by exact segment-by-segment correspondence on every bitmap of the sweep (all bitmaps up to 13 cells, random bitmaps up to 144x144 and 4200 wide, all symbol sizes),"
+    " and the certified checker is still run on every path the implementation returns.")
+PROPS["C17"]["level_note"] = "Trusted: Lean kernel, standard axioms, DM/Spec/Fill.lean as the semantics of relative path operators and the even-odd rule, the correspondence harness for model = path() (exact equality of outputs)."
+PROPS["C17"]["technique"] = "Lean 4 theorem over the model of path() (even-degree outline graph, Hierholzer invariants, compress_path) + certified checker + exact model/implementation correspondence"
+PROPS["C17"]["assumptions"] = ["bitmap dimensions fit i16 (documented precondition of path(); an explicit `overflow` outcome of the model)", "the top-left module is dark (as in the property)"]
+
+PROPS["C01"]["explanation"] += (" mixed_roundtrip_E (DM/Props/C01.lean, DM/Lemmas/EdiGen.lean): the same for plans that end in an EDIFACT stretch (front ++ EDIFACT entries, the stretch's characters being EDIFACT characters) - the general EDIFACT"
+    " encoder lemma from any position with every end-of-data form (ASCII end game, UNLATCH in the next free slot, exact fit), also behind FNC1 / Macro prefix codewords.")
